@@ -83,7 +83,94 @@ pub fn decorate(prog: &mut Prog, rng: &mut Rng) {
     let n_dec = 2 + rng.usize_below(6);
     for _ in 0..n_dec {
         let base = g.steps.len();
-        match rng.below(7) {
+        match rng.below(13) {
+            7 => {
+                // both operand orders of a non-commutative product of non-constant matrices
+                let st = *rng.pick(&[ciphercore_base::data_types::UINT8, ciphercore_base::data_types::INT32, ciphercore_base::data_types::UINT64]);
+                let mt = array_type(vec![2, 2], st);
+                g.steps.push(Step { op: Operation::Random(mt.clone()), deps: vec![], gdeps: vec![] });
+                g.steps.push(Step { op: Operation::Random(mt), deps: vec![], gdeps: vec![] });
+                let op = if rng.chance(1, 2) { Operation::Dot } else { Operation::Matmul };
+                g.steps.push(Step { op: op.clone(), deps: vec![base, base + 1], gdeps: vec![] });
+                g.steps.push(Step { op, deps: vec![base + 1, base], gdeps: vec![] });
+                g.steps.push(Step { op: Operation::Subtract, deps: vec![base, base + 1], gdeps: vec![] });
+                g.steps.push(Step { op: Operation::Subtract, deps: vec![base + 1, base], gdeps: vec![] });
+                keep.push(base + 2);
+                keep.push(base + 3);
+                keep.push(base + 4);
+                keep.push(base + 5);
+            }
+            8 => {
+                // a Send marker on a getter that the meta-operation pass resolves through its tuple
+                let i = rng.usize_below(g.steps.len());
+                let j = rng.usize_below(g.steps.len());
+                g.steps.push(Step { op: Operation::CreateTuple, deps: vec![i, j], gdeps: vec![] });
+                g.steps.push(Step { op: Operation::TupleGet(rng.below(2)), deps: vec![base], gdeps: vec![] });
+                // the marker sits on a NOP behind the getter: the property quantifies over annotated NOPs (the only
+                // place the compiler puts Send markers). A marker on the getter itself is outside it: the unchanged
+                // optimiser moves such a marker onto the resolved element node, which other users share.
+                let (s, r) = (rng.below(3), rng.below(3));
+                g.steps.push(Step { op: Operation::NOP, deps: vec![base + 1], gdeps: vec![] });
+                g.node_annotations.push((base + 2, NodeAnnotation::Send(s, r)));
+                keep.push(base + 2);
+            }
+            9 if !arrays.is_empty() => {
+                // constants with identical bytes but different shape / signedness feeding non-foldable nodes
+                let st = *rng.pick(&[ciphercore_base::data_types::UINT32, ciphercore_base::data_types::UINT8]);
+                let st_signed = if st == ciphercore_base::data_types::UINT32 { ciphercore_base::data_types::INT32 } else { ciphercore_base::data_types::INT8 };
+                let m = crate::vals::st_mask(st);
+                let vals = [m, 2u128];
+                g.steps.push(Step { op: Operation::Constant(array_type(vec![2], st), crate::vals::enc(&vals, st)), deps: vec![], gdeps: vec![] });
+                g.steps.push(Step { op: Operation::Constant(array_type(vec![2, 1], st), crate::vals::enc(&vals, st)), deps: vec![], gdeps: vec![] });
+                g.steps.push(Step { op: Operation::Constant(array_type(vec![2], st_signed), crate::vals::enc(&vals, st_signed)), deps: vec![], gdeps: vec![] });
+                g.steps.push(Step { op: Operation::Random(array_type(vec![2, 2], st)), deps: vec![], gdeps: vec![] });
+                g.steps.push(Step { op: Operation::Random(array_type(vec![2], st_signed)), deps: vec![], gdeps: vec![] });
+                g.steps.push(Step { op: Operation::Add, deps: vec![base + 3, base], gdeps: vec![] });
+                g.steps.push(Step { op: Operation::Add, deps: vec![base + 3, base + 1], gdeps: vec![] });
+                g.steps.push(Step { op: Operation::Truncate(2), deps: vec![base + 2], gdeps: vec![] });
+                g.steps.push(Step { op: Operation::Multiply, deps: vec![base + 4, base + 2], gdeps: vec![] });
+                keep.push(base + 5);
+                keep.push(base + 6);
+                keep.push(base + 7);
+                keep.push(base + 8);
+            }
+            10 => {
+                // two independent random permutations of the same size
+                let n = 2 + rng.below(5);
+                g.steps.push(Step { op: Operation::RandomPermutation(n), deps: vec![], gdeps: vec![] });
+                g.steps.push(Step { op: Operation::RandomPermutation(n), deps: vec![], gdeps: vec![] });
+                g.steps.push(Step { op: Operation::CreateTuple, deps: vec![base, base + 1], gdeps: vec![] });
+                keep.push(base + 2);
+            }
+            11 => {
+                // randomising operations whose arguments are compile-time constants
+                let u64t = ciphercore_base::data_types::UINT64;
+                if rng.chance(1, 2) {
+                    let vals = [0u128, u64::MAX as u128, 1, u64::MAX as u128, u64::MAX as u128];
+                    g.steps.push(Step { op: Operation::Constant(array_type(vec![5], u64t), crate::vals::enc(&vals, u64t)), deps: vec![], gdeps: vec![] });
+                    g.steps.push(Step { op: Operation::CuckooToPermutation, deps: vec![base], gdeps: vec![] });
+                } else {
+                    let vals = [0u128, 0, 2, 2];
+                    g.steps.push(Step { op: Operation::Constant(array_type(vec![4], u64t), crate::vals::enc(&vals, u64t)), deps: vec![], gdeps: vec![] });
+                    g.steps.push(Step { op: Operation::DecomposeSwitchingMap(4), deps: vec![base], gdeps: vec![] });
+                }
+                keep.push(base + 1);
+            }
+            12 => {
+                // commuted copy of an existing binary step
+                let cands: Vec<usize> = (0..g.steps.len())
+                    .filter(|i| matches!(g.steps[*i].op, Operation::Add | Operation::Subtract | Operation::Multiply) && g.steps[*i].deps.len() == 2 && g.steps[*i].deps[0] != g.steps[*i].deps[1])
+                    .collect();
+                if cands.is_empty() {
+                    continue;
+                }
+                let i = *rng.pick(&cands);
+                let mut st = g.steps[i].clone();
+                st.deps.swap(0, 1);
+                g.steps.push(st);
+                keep.push(base);
+                keep.push(i);
+            }
             0 if !arrays.is_empty() => {
                 // Random added to a value
                 let a = *rng.pick(&arrays);
@@ -166,7 +253,7 @@ pub fn decorate(prog: &mut Prog, rng: &mut Rng) {
         }
     }
     rng.shuffle(&mut keep);
-    keep.truncate(4);
+    keep.truncate(8);
     keep.sort();
     keep.dedup();
     let out = g.steps.len();
@@ -177,7 +264,12 @@ pub fn decorate(prog: &mut Prog, rng: &mut Rng) {
 pub fn plain_twin(case: &Case) -> Result<Option<Twin>, String> {
     let built = match case.prog.build() {
         Ok(b) => b,
-        Err(_) => return Ok(None),
+        Err(e) => {
+            if std::env::var("VERIF_DEBUG").is_ok() {
+                eprintln!("plain twin build failed: {}", e);
+            }
+            return Ok(None);
+        }
     };
     let src = built.context.clone();
     let cfg = case.inline.config();
@@ -189,7 +281,12 @@ pub fn plain_twin(case: &Case) -> Result<Option<Twin>, String> {
     });
     match r {
         Err(p) => Err(format!("panic: {}", p)),
-        Ok(Err(_)) => Ok(None),
+        Ok(Err(e)) => {
+            if std::env::var("VERIF_DEBUG").is_ok() {
+                eprintln!("plain twin skipped: {}", es(e));
+            }
+            Ok(None)
+        }
         Ok(Ok(t)) => Ok(Some(t)),
     }
 }
@@ -363,6 +460,18 @@ pub fn c06_static(t: &Twin, tv: &TwinViews) -> Option<Violation> {
         }
         if tv.map[*a] != Some(*b) {
             return Some(Violation { class: "inputs-changed".into(), detail: format!("input {} is mapped to {:?}, expected input node {}", a, tv.map[*a], b) });
+        }
+    }
+    // a Send marker of a node that survives optimisation stays on its image (the image may carry more)
+    for (i, m) in tv.map.iter().enumerate() {
+        if let Some(m) = m {
+            let (su, so) = (&tv.gu.nodes[i].sends, &tv.go.nodes[*m].sends);
+            if !su.is_empty() && !su.iter().all(|x| so.contains(x)) {
+                return Some(Violation {
+                    class: "send-marker-lost".into(),
+                    detail: format!("original node {} ({}) carries Send markers {:?}; its image {} ({}) carries {:?}", i, tv.gu.nodes[i].op, su, m, tv.go.nodes[*m].op, so),
+                });
+            }
         }
     }
     // recorded types equal the types that type inference re-derives after a reload
@@ -569,6 +678,14 @@ pub fn check_case(case: &Case, kind: &str, run_seed: u64, which: &str, stats: &m
         }
     };
     let tv = views(&twin)?;
+    if std::env::var("VERIF_DEBUG").is_ok() {
+        for (i, n) in tv.gu.nodes.iter().enumerate() {
+            eprintln!("U n{} {} deps {:?} sends {:?} -> {:?}", i, n.op_tag().chars().take(50).collect::<String>(), n.deps, n.sends, tv.map[i]);
+        }
+        for (i, n) in tv.go.nodes.iter().enumerate() {
+            eprintln!("O n{} {} deps {:?} sends {:?}", i, n.op_tag().chars().take(50).collect::<String>(), n.deps, n.sends);
+        }
+    }
     stats.nodes_total += (tv.gu.nodes.len() + tv.go.nodes.len()) as u64;
     stats.graph_shapes.insert(tv.gu.shape_hash());
     stats.probe("nodes-removed-by-optimiser", (tv.gu.nodes.len() - tv.go.nodes.len().min(tv.gu.nodes.len())) as u64);
